@@ -1,8 +1,10 @@
 package vuego
 
 import (
+	"fmt"
 	"strings"
 
+	"github.com/expr-lang/expr/builtin"
 	"golang.org/x/net/html"
 
 	"github.com/titpetric/vuego/internal/helpers"
@@ -23,10 +25,13 @@ func (v *Vue) evalConditionExpr(ctx VueContext, expr string) (bool, error) {
 	expr = helpers.NormalizeComparisonOperators(expr)
 
 	// Try to evaluate as expr expression first (supports ==, !=, &&, ||, !, <, >, <=, >=, and function calls)
-	result, err := v.exprEval.Eval(expr, ctx.stack.EnvMap())
+	result, fatal, err := v.evalExpr(ctx, expr)
 	if err == nil {
 		// Successfully evaluated with expr - convert to boolean
 		return helpers.IsTruthy(result), nil
+	}
+	if fatal {
+		return false, err
 	}
 
 	// If expr evaluation failed and expression starts with !, handle nil negation manually.
@@ -35,10 +40,13 @@ func (v *Vue) evalConditionExpr(ctx VueContext, expr string) (bool, error) {
 	if strings.HasPrefix(expr, "!") {
 		innerExpr := strings.TrimSpace(expr[1:])
 		// Try to evaluate inner expression (may return nil)
-		innerResult, innerErr := v.exprEval.Eval(innerExpr, ctx.stack.EnvMap())
+		innerResult, fatal, innerErr := v.evalExpr(ctx, innerExpr)
 		if innerErr == nil {
 			// Successfully evaluated - convert nil to bool and negate
 			return !helpers.IsTruthy(innerResult), nil
+		}
+		if fatal {
+			return false, innerErr
 		}
 		// Fall back to stack resolution if expr evaluation fails
 		val, ok := ctx.stack.Resolve(innerExpr)
@@ -57,6 +65,78 @@ func (v *Vue) evalConditionExpr(ctx VueContext, expr string) (bool, error) {
 	}
 
 	return helpers.IsTruthy(val), nil
+}
+
+// evalExpr evaluates expr over the variables in scope. When that fails and the expression calls
+// something, it is evaluated once more with the registered functions in the environment (a variable
+// of the same name wins, and so do the evaluator's own builtins such as len): "isValid(x) && y"
+// calls isValid. fatal reports an unknown function or an error returned by a function; these fail
+// the render, every other error leaves the decision to the caller's fallbacks.
+func (v *Vue) evalExpr(ctx VueContext, expr string) (result any, fatal bool, err error) {
+	result, err = v.exprEval.Eval(expr, ctx.stack.EnvMap())
+	if err == nil || !strings.Contains(expr, "(") {
+		return result, false, err
+	}
+
+	env := ctx.stack.EnvMap()
+	var failed error
+	for name, fn := range v.funcMap {
+		if _, shadowed := env[name]; shadowed || isExprBuiltin(name) {
+			continue
+		}
+		env[name] = func(args ...any) (any, error) {
+			res, callErr := v.callFunc(&ctx, fn, args...)
+			if callErr != nil && failed == nil {
+				failed = fmt.Errorf("%s(): %w", name, callErr)
+			}
+			return res, callErr
+		}
+	}
+	if name := unknownFunction(expr, env); name != "" {
+		return nil, true, fmt.Errorf("function '%s' not found", name)
+	}
+	result, err = v.exprEval.Eval(expr, env)
+	if err != nil && failed != nil {
+		return nil, true, failed
+	}
+	return result, false, err
+}
+
+// unknownFunction returns the first name that expr calls ("name(") and that is neither a variable
+// or function of env nor a builtin of the evaluator; "" if there is none. Quoted text and method
+// calls ("x.name(") are skipped.
+func unknownFunction(expr string, env map[string]any) string {
+	quote := byte(0)
+	for i := 0; i < len(expr); i++ {
+		c := expr[i]
+		switch {
+		case quote != 0:
+			if c == quote {
+				quote = 0
+			}
+		case c == '"' || c == '\'':
+			quote = c
+		case helpers.IsIdentifierChar(rune(c), true) && (i == 0 || !(helpers.IsIdentifierChar(rune(expr[i-1]), false) || expr[i-1] == '.')):
+			j := i
+			for j < len(expr) && helpers.IsIdentifierChar(rune(expr[j]), false) {
+				j++
+			}
+			name := expr[i:j]
+			if j < len(expr) && expr[j] == '(' {
+				if _, known := env[name]; !known && !isExprBuiltin(name) {
+					return name
+				}
+			}
+			i = j - 1
+		}
+	}
+	return ""
+}
+
+// isExprBuiltin reports a function that the expression evaluator provides itself.
+func isExprBuiltin(name string) bool {
+	_, ok := builtin.Index[name]
+	return ok
 }
 
 // evalElseIfChain evaluates a v-if, v-else-if, v-else chain starting at the given node.
